@@ -133,8 +133,14 @@ int main(void)
         MDC(m, nsel, 0, s1, 1); MDC(m, nsel, 0, sT, T);
         bad = -1;
         if(s1->size != sT->size) bad = -2; else for(i = 0; i < s1->size; i++) if(s1->data[i] != sT->data[i] && bad < 0) bad = (long)i;
-        pr_long("mdc_bad", bad);
         DelUIVector(&s1); DelUIVector(&sT);
+        for(me = 1; me <= 2 && bad == -1; me++){   /* the same with the Manhattan and the cosine metric */
+          initUIVector(&s1); initUIVector(&sT);
+          MDC(m, nsel, me, s1, 1); MDC(m, nsel, me, sT, T);
+          if(s1->size != sT->size) bad = -2; else for(i = 0; i < s1->size; i++) if(s1->data[i] != sT->data[i] && bad < 0) bad = (long)(100*me + i);
+          DelUIVector(&s1); DelUIVector(&sT);
+        }
+        pr_long("mdc_bad", bad);
         initUIVector(&l1); initUIVector(&lT); initMatrix(&c1); initMatrix(&cT);
         KMeans(m, 3, 2, l1, c1, 1); KMeans(m, 3, 2, lT, cT, T);
         bad = -1;
@@ -162,6 +168,11 @@ int main(void)
         snprintf(nm, sizeof nm, "square%d", me); pr_matrix(nm, D); DelMatrix(&D);
         initMatrix(&D); CalculateDistance(m1, m1, D, T, (enum cmethod)me);
         snprintf(nm, sizeof nm, "self%d", me); pr_matrix(nm, D); DelMatrix(&D);
+        /* the single-threaded definitions of the same tables */
+        initMatrix(&D);
+        if(me == 0) EuclideanDistance_ST(m1, m2, D); else if(me == 1) SquaredEuclideanDistance_ST(m1, m2, D);
+        else if(me == 2) ManhattanDistance_ST(m1, m2, D); else CosineDistance_ST(m1, m2, D);
+        snprintf(nm, sizeof nm, "st%d", me); pr_matrix(nm, D); DelMatrix(&D);
         { /* the same table against a distinct copy of m1: the result may not depend on the two arguments being one object */
           matrix *cp; size_t a, b; NewMatrix(&cp, m1->row, m1->col);
           for(a = 0; a < m1->row; a++) for(b = 0; b < m1->col; b++) cp->data[a][b] = m1->data[a][b];
